@@ -92,6 +92,9 @@ ValM(D, name, var, depth) ==
               <<[tag |-> f.tag, x |-> ValT(D, f.ty, IF var = 0 THEN 2 ELSE v, depth + 1)]>>
            ELSE IF k = "msg" THEN
               (IF var = 0 \/ deep THEN <<>> ELSE <<[tag |-> f.tag, x |-> ValM(D, f.ty.msg, v, depth + 1)]>>)
+           ELSE IF SubSeq(name, 1, 2) = "Nz" /\ k \in {"double", "float"} /\ var > 0 THEN
+              \* negative zero is a value of its own (its bits are not the default's): it must survive
+              <<[tag |-> f.tag, x |-> Leaf(k, IF k = "double" THEN <<128, 0, 0, 0, 0, 0, 0, 0>> ELSE <<128, 0, 0, 0>>)]>>
            ELSE LET x == ScalarVal(k, v) IN
                 IF var = 0 \/ (var = 2 /\ i % 2 = 0) THEN <<>>
                 ELSE IF f.label = "singular" /\ IsDefault(x) THEN <<>> ELSE <<[tag |-> f.tag, x |-> x]>>
